@@ -5,6 +5,31 @@ PROP = "C06"
 THEOREMS = [tuple(x) for x in json.load(open(os.path.join(VERIF, "lib", "pins", PROP + ".json")))]
 
 
+def probe_f19(run, har):
+    """a dependency chain of 10000 steps: the recursive want traversal exhausts the machine stack"""
+    import tempfile, shutil
+    n2, out = build_n2_binary()
+    if n2 is None:
+        run.tie("n2 build", out[-1000:])
+        return
+    d = tempfile.mkdtemp(prefix="n2verif-c06-%d-" % os.getpid())
+    try:
+        n = 10000
+        with open(os.path.join(d, "build.ninja"), "w") as f:
+            f.write("rule t\n  command = touch $out\nbuild o0: t\n")
+            for i in range(1, n):
+                f.write("build o%d: t o%d\n" % (i, i - 1))
+        p = subprocess.run([n2, "-j", "4", "o%d" % (n - 1), "-k", "1"], cwd=d, stdout=subprocess.PIPE, stderr=subprocess.PIPE,
+                           stdin=subprocess.DEVNULL, timeout=600, env=ENV)
+        where = {"chain_length": n, "rc": p.returncode, "stderr": p.stderr.decode("utf-8", "replace")[-300:]}
+        if p.returncode < 0 or p.returncode in (134, 139) or b"overflow" in p.stderr:
+            run.report_failure("deep-recursion-stack-overflow", "a chain of %d steps aborts n2 (rc %d) instead of building" % (n, p.returncode), where)
+        elif p.returncode != 0:
+            run.report_failure(None, "a chain of %d steps fails: rc %d" % (n, p.returncode), where)
+    finally:
+        shutil.rmtree(d, ignore_errors=True)
+
+
 def main(tier, seed, replay=None):
     return sched_check(PROP, THEOREMS, tier, seed, [monitor_c06], extra_modules=["Model.All", "Proofs.SchedSpec", "Proofs.SchedInv", "Proofs.SchedLive", "Proofs.SchedRunThms"],
-                       replay=replay)
+                       replay=replay, probes=probe_f19)
